@@ -1,0 +1,136 @@
+//go:build verif
+
+package bigbuff
+
+import (
+	"context"
+	"sync/atomic"
+	"time"
+)
+
+// This file is only compiled with the "verif" build tag. It provides the hook registry used by the
+// external verification harness, plus read-only accessors for unexported state and seams for the
+// unexported functions the harness needs to drive deterministically. Nothing here changes behaviour
+// unless a hook is installed.
+
+// VerifHookFunc receives the name of a verification point, an identifying object (e.g. the receiver)
+// and a small integer. It may block (gates) but must not call back into the same object.
+type VerifHookFunc func(name string, obj any, n int)
+
+var verifHook atomic.Pointer[VerifHookFunc]
+
+// VerifSetHook installs (or with nil removes) the process-wide hook.
+func VerifSetHook(fn VerifHookFunc) {
+	if fn == nil {
+		verifHook.Store(nil)
+		return
+	}
+	verifHook.Store(&fn)
+}
+
+func verifPoint(name string, obj any, n int) {
+	if h := verifHook.Load(); h != nil {
+		(*h)(name, obj, n)
+	}
+}
+
+// VerifBufferState returns the base offset, buffer length, and committed offsets of the registered
+// consumers, read under the buffer's read lock.
+func VerifBufferState(b *Buffer) (offset int, length int, consumers map[Consumer]int) {
+	b.ensure()
+	b.mutex.RLock()
+	defer b.mutex.RUnlock()
+	consumers = make(map[Consumer]int, len(b.consumers))
+	for c, o := range b.consumers {
+		consumers[c] = o
+	}
+	return b.offset, len(b.buffer), consumers
+}
+
+// VerifConsumerDelta returns the uncommitted read count of a consumer created by Buffer.NewConsumer.
+func VerifConsumerDelta(c Consumer) int {
+	cm := c.(*consumer)
+	cm.mutex.Lock()
+	defer cm.mutex.Unlock()
+	return cm.offset
+}
+
+// VerifChannelState returns the length of the pending buffer and the rollback count of a Channel.
+func VerifChannelState(c *Channel) (buffered int, rollback int) {
+	c.mutex.Lock()
+	defer c.mutex.Unlock()
+	return len(c.buffer), c.rollback
+}
+
+// VerifChanCasterState returns the packed state word of a ChanCaster.
+func VerifChanCasterState[C chan V, V any](x *ChanCaster[C, V]) uint64 { return x.state.Load() }
+
+// VerifChanPubSubState returns the subscriber count, the caster word and whether broken is closed.
+func VerifChanPubSubState[C chan V, V any](x *ChanPubSub[C, V]) (subscribers int32, ping uint64, broken bool) {
+	select {
+	case <-x.broken:
+		broken = true
+	default:
+	}
+	return x.subscribers.Load(), x.ping.state.Load(), broken
+}
+
+// VerifExclusiveKeys returns the number of keys currently present in the work map.
+func VerifExclusiveKeys(e *Exclusive) int {
+	e.mutex.Lock()
+	defer e.mutex.Unlock()
+	return len(e.work)
+}
+
+// VerifWorkersState returns count, target and queue length.
+func VerifWorkersState(w *Workers) (count, target, queued int) {
+	w.mutex.Lock()
+	defer w.mutex.Unlock()
+	return w.count, w.target, len(w.queue)
+}
+
+// VerifNotifierSize returns the number of keys and the total number of subscriptions.
+func VerifNotifierSize(n *Notifier) (keys, subs int) {
+	n.mutex.RLock()
+	defer n.mutex.RUnlock()
+	for _, m := range n.subscribers {
+		subs += len(m)
+	}
+	return len(n.subscribers), subs
+}
+
+// VerifSwapWaitDuration replaces the retry wait function and returns the previous one.
+func VerifSwapWaitDuration(fn func(ctx context.Context, d time.Duration)) func(ctx context.Context, d time.Duration) {
+	old := waitDuration
+	waitDuration = fn
+	return old
+}
+
+// VerifSwapCalcExponentialRetry replaces the retry delay calculation and returns the previous one.
+func VerifSwapCalcExponentialRetry(fn func(d time.Duration, c uint32) time.Duration) func(d time.Duration, c uint32) time.Duration {
+	old := calcExponentialRetry
+	calcExponentialRetry = fn
+	return old
+}
+
+// VerifCalcExponentialRetry calls the current delay calculation.
+func VerifCalcExponentialRetry(d time.Duration, c uint32) time.Duration {
+	return calcExponentialRetry(d, c)
+}
+
+// VerifUnpackFatalError and VerifIsFatalError expose the unexported fatal error helpers.
+func VerifUnpackFatalError(err error) error { return unpackFatalError(err) }
+func VerifIsFatalError(err error) bool      { return isFatalError(err) }
+
+// VerifSanityCheckSubscribersDelta runs ChanPubSub's sanity check on a fresh instance and reports
+// whether it panicked.
+func VerifSanityCheckSubscribersDelta(subscribers, delta int) (panicked bool) {
+	x := NewChanPubSub(make(chan struct{}))
+	defer func() {
+		if recover() != nil {
+			panicked = true
+		}
+	}()
+	x.sanityCheckSubscribersDelta(subscribers, delta)
+	return false
+}
